@@ -1,0 +1,13 @@
+//go:build verif
+
+package packets
+
+import "golang.org/x/net/bpf"
+
+// VerifClassicBPF exposes the classic-BPF program a Source would install for spec.
+func VerifClassicBPF(spec PacketFilterSpec) ([]bpf.RawInstruction, error) {
+	return getClassicBPFFilter(spec)
+}
+
+// VerifSetPacketIDBase sets the process-wide IP-ID allocator base.
+func VerifSetPacketIDBase(v uint32) { curPacketID.Store(v) }
